@@ -68,6 +68,10 @@ def reject_tests(f):
 def run(ctx):
     ck = ctx.check
     cr = ctx.crate("default")
+    ck.rule("R20z", "every index, slice range and division reachable from the serde_2026 decoders and the length probe is in bounds (proved, or by a listed invariant)")
+    from rules import c25
+    counts, n_sites = c25.check_bounds(ck, cr, "R20z", c25.reach_fns(cr, [DE, PROBE, "serde_2026::de::deserialize_2026"]))
+    ck.floor("serde_2026 decoder indexing sites", n_sites, 5)
     ck.rule("R20a", "the classic prefix decoder rejects the 2026 magic prefix (constant relation)")
     ck.rule("R20b", "instruction numbering agrees between writer and reader")
     ck.rule("R20c", "the length probe mirrors the decoder's header validation")
